@@ -20,7 +20,7 @@ vars == <<phase, n, chunk, code, sd>>
 EnvSeed == IF "C24_SEED" \in DOMAIN IOEnv THEN atoi(IOEnv.C24_SEED) ELSE 1
 
 Total(N) == Pw(NK(N), N)
-Stride == 50021                        \* coprime to NK(4)^4 = 47^4 and to 30^3; idx * Stride < 2^31 for idx < 42 000
+Stride == 50021                        \* coprime to NK(4) = 51 and to NK(3) = 33; idx * Stride < 2^31 for idx < 42 000
 
 Init ==
   /\ phase = "pick" /\ code = 0 /\ sd = EnvSeed % 100000
